@@ -131,6 +131,10 @@ async fn on_flush(
     // Move current memtable to a new passive buffer
     let passive = ctx.passive_buffers.add_from(&ctx.memtable).await;
     let flushed_mem = std::mem::replace(&mut ctx.memtable, MemTable::new(capacity));
+    // Entries of the rotated memtable end here in the WAL: continue in a new log file.
+    if let Some(wal) = ctx.wal.as_ref() {
+        wal.rotate().await;
+    }
 
     // Use the existing flush manager from context
     info!(target: LOG_TARGET, shard_id = ctx.id, "Queueing memtable for flush");
